@@ -532,7 +532,16 @@ Inductive op : Type :=
 | OGet (n : list Z) (ty : Z)
 | OEval (n idx : list Z)
 | OConv (v : pyval) (ty : Z)
-| ORaw (n b : list Z).
+| ORaw (n b : list Z)
+| OClear                                   (* CLEAR / NEW / RUN / storing a program line: all variables, arrays, OPTION BASE *)
+| OLetEl (n idx : list Z) (v : pyval).     (* BASIC: LET n(idx) = literal *)
+
+(* LET name(idx) = literal executed as a BASIC statement: the element is pre-allocated (auto-dimension), then the
+   value is stored; errors are printed, not raised *)
+Definition let_elem (E : env) (st : state) (n idx : list Z) (v : pyval) : state * res unit :=
+  let n := py_upper n in
+  bindS (check_dim st n idx) (fun st1 _ =>
+  bindS (st1, from_value E (sigil_of n) v) (fun st2 sv => elem_set st2 n idx sv)).
 
 Definition frame (l : list Z) : list Z := zlen l :: l.
 Definition enc_unit (r : res unit) : list Z := enc_res (bind r (fun _ => Ok [])).
@@ -547,10 +556,19 @@ Definition step (E : env) (st : state) (o : op) : state * list Z :=
   | OEval n idx => let '(s, r) := evaluate st n idx in (s, enc_pyres r)
   | OConv v ty => (st, enc_pyres (convert E v ty))
   | ORaw n b => (set_raw st n b, [0])
+  | OClear => (st_init, [0])
+  | OLetEl n idx v => let '(s, r) := let_elem E st n idx v in (s, enc_unit r)
   end.
 
 Fixpoint run (E : env) (st : state) (ops : list op) : list Z :=
   match ops with
   | [] => []
   | o :: r => let '(s, out) := step E st o in frame out ++ run E s r
+  end.
+
+(* the session state after a history of API calls and BASIC-side changes *)
+Fixpoint final (E : env) (st : state) (ops : list op) : state :=
+  match ops with
+  | [] => st
+  | o :: r => final E (fst (step E st o)) r
   end.
